@@ -193,7 +193,7 @@ func (pac *PACType) processPACInfoBuffers(signatures bool, l *log.Logger) error 
 			var k S4UDelegationInfo
 			err := k.Unmarshal(p)
 			if err != nil {
-				l.Printf("could not process S4U_DelegationInfo: %v", err)
+				logf(l, "could not process S4U_DelegationInfo: %v", err)
 				continue
 			}
 			pac.S4UDelegationInfo = &k
@@ -205,7 +205,7 @@ func (pac *PACType) processPACInfoBuffers(signatures bool, l *log.Logger) error 
 			var k UPNDNSInfo
 			err := k.Unmarshal(p)
 			if err != nil {
-				l.Printf("could not process UPN_DNSInfo: %v", err)
+				logf(l, "could not process UPN_DNSInfo: %v", err)
 				continue
 			}
 			pac.UPNDNSInfo = &k
@@ -217,7 +217,7 @@ func (pac *PACType) processPACInfoBuffers(signatures bool, l *log.Logger) error 
 			var k ClientClaimsInfo
 			err := k.Unmarshal(p)
 			if err != nil {
-				l.Printf("could not process ClientClaimsInfo: %v", err)
+				logf(l, "could not process ClientClaimsInfo: %v", err)
 				continue
 			}
 			pac.ClientClaimsInfo = &k
@@ -229,7 +229,7 @@ func (pac *PACType) processPACInfoBuffers(signatures bool, l *log.Logger) error 
 			var k DeviceInfo
 			err := k.Unmarshal(p)
 			if err != nil {
-				l.Printf("could not process DeviceInfo: %v", err)
+				logf(l, "could not process DeviceInfo: %v", err)
 				continue
 			}
 			pac.DeviceInfo = &k
@@ -241,13 +241,20 @@ func (pac *PACType) processPACInfoBuffers(signatures bool, l *log.Logger) error 
 			var k DeviceClaimsInfo
 			err := k.Unmarshal(p)
 			if err != nil {
-				l.Printf("could not process DeviceClaimsInfo: %v", err)
+				logf(l, "could not process DeviceClaimsInfo: %v", err)
 				continue
 			}
 			pac.DeviceClaimsInfo = &k
 		}
 	}
 	return nil
+}
+
+// logf writes to the logger if there is one.
+func logf(l *log.Logger, format string, v ...interface{}) {
+	if l != nil {
+		l.Printf(format, v...)
+	}
 }
 
 func (pac *PACType) verify(key types.EncryptionKey) (bool, error) {
